@@ -4,7 +4,6 @@ import MythVerif.Proofs.WsQueueTsoTac
 namespace MythVerif.WsqTso
 open MythVerif.Wsq
 
-set_option maxHeartbeats 4000000 in
 theorem f_T_cache (s : St) (p : Pid) (x : Option Elem) (rest : List Sto) : Inv s → s.lock = .thief p →
     s.bufT p = .cache x :: rest →
     ((∃ r, s.tpc p = .wk4u r ∧ rest = []) ∨ (∃ b, s.tpc p = .vk5 b ∧ rest = []) ∨
@@ -12,9 +11,7 @@ theorem f_T_cache (s : St) (p : Pid) (x : Option Elem) (rest : List Sto) : Inv s
     Inv (applySto { s with bufT := upd s.bufT p rest } (.cache x)) := by
   intro h hl hb hpc
   simp only [applySto]
-  cases h
-  simp only [ownerLocked, carry, resetting, ownerFlight] at *
   rcases hpc with ⟨r, hpc, rfl⟩ | ⟨b, hpc, rfl⟩ | ⟨hpc, rfl, htr⟩
-  all_goals tso_finish3
+  all_goals tso_fastT h p [wk4u, vk5, vu]
 
 end MythVerif.WsqTso
